@@ -63,6 +63,10 @@ type verifSeqBackend struct {
 	failAt     int
 	opCount    int
 	injectedOp string
+	// alternative addressing (replay of spec-level faults): fail backend op failOp while task failIdx is running
+	failOp  string
+	failIdx int
+	curIdx  *int
 
 	created map[string]bool // data dirs created by the pending copy-data (for undo)
 }
@@ -83,13 +87,26 @@ func (b *verifSeqBackend) arm(failAt int) {
 	b.failAt = failAt
 	b.opCount = 0
 	b.injectedOp = ""
+	b.failOp = ""
+	b.failIdx = 0
 }
 
 func (b *verifSeqBackend) inject(op *fakeOp) error {
-	if b.failAt <= 0 || b.injectedOp != "" {
+	if b.injectedOp != "" {
 		return nil
 	}
 	if verifSeqNoInject[op.op] || strings.HasPrefix(op.op, "storesvc-") {
+		return nil
+	}
+	if b.failOp != "" {
+		if op.op == b.failOp && b.curIdx != nil && *b.curIdx == b.failIdx {
+			b.injectedOp = op.op
+			op.op = op.op + ".failed"
+			return errors.New("verif: injected backend failure")
+		}
+		return nil
+	}
+	if b.failAt <= 0 {
 		return nil
 	}
 	b.opCount++
@@ -244,6 +261,7 @@ type verifSeqSuite struct {
 	failTaskID string
 	failedHow  string
 	curChg     *state.Change
+	curIdx     int
 	chain      []*state.Task
 	chainIdx   map[string]int
 	evErr      error
@@ -418,6 +436,8 @@ func (s *verifSeqSuite) taskStatusChanged(t *state.Task, old, new state.Status) 
 		return
 	}
 	switch {
+	case new == state.DoingStatus:
+		s.curIdx = idx
 	case new == state.DoneStatus && (old == state.DoingStatus || old == state.DoStatus):
 		s.emit(map[string]interface{}{"ev": "Do", "idx": idx})
 	case new == state.UndoneStatus:
@@ -469,6 +489,7 @@ type verifSeqOp struct {
 	Str    bool   `json:"str"`
 	FK     int    `json:"fk"` // fail the fk-th task of the chain on entry (0: none)
 	FJ     int    `json:"fj"` // fail the fj-th injectable backend op of the change (0: none)
+	FOp    string `json:"fop"` // with fk: fail backend op fop inside task fk instead of failing the task on entry
 	Now    int    `json:"now"`
 }
 
@@ -634,14 +655,21 @@ func (s *verifSeqSuite) runOp(c *check.C, op *verifSeqOp) {
 	fk := 0
 	if op.FK > 0 && op.FK <= len(tasks) {
 		fk = op.FK
-		s.failTaskID = tasks[fk-1].ID()
+		if op.FOp == "" {
+			s.failTaskID = tasks[fk-1].ID()
+		}
 	}
 	op.FK = fk
-	if fk == 0 && op.FJ > 0 {
+	if fk > 0 && op.FOp != "" {
+		s.vb.failOp = op.FOp
+		s.vb.failIdx = fk
+		op.FJ = 0
+	} else if fk == 0 && op.FJ > 0 {
 		s.vb.arm(op.FJ)
 	} else {
 		op.FJ = 0
 	}
+	s.curIdx = 0
 	s.curChg = chg
 	s.emit(map[string]interface{}{"ev": "Request", "op": op, "ok": true, "tasks": labels, "linear": linear})
 
@@ -699,7 +727,7 @@ func (s *verifSeqSuite) reset(c *check.C, onClassic bool) {
 	}
 	s.SetUpTest(c)
 	s.AddCleanup(release.MockOnClassic(onClassic))
-	s.vb = &verifSeqBackend{fakeSnappyBackend: s.fakeBackend, created: map[string]bool{}}
+	s.vb = &verifSeqBackend{fakeSnappyBackend: s.fakeBackend, created: map[string]bool{}, curIdx: &s.curIdx}
 	s.fakeBackend.maybeInjectErr = s.vb.inject
 	snapstate.SetSnapManagerBackend(s.snapmgr, s.vb)
 	s.o.TaskRunner().AddBlocked(s.blocked)
